@@ -34,3 +34,84 @@ reg("C03",
          "not exhaustively.",
     technique="TLA+/TLC exhaustive model checking + liveness; replay of TLC behaviours into the real code under a deterministic scheduler; schedule exploration",
     design_ref="DESIGN.md 4.3, 3 (M1, M2), 5/C03")
+
+reg("C01",
+    text="spec/WalkPar.tla models the parallel walk at the granularity of multiprocessing's critical sections (readiness table pre-filled with the bits of "
+         "non-live children, seeds, ready/done queues with feeder threads and reader lock, timeouts, shutdown flag, joins). TLC checks OnlyOps, AtMostOnce, "
+         "ChildrenFirst (state and action form), DoneOK, NoLossAtSet, PopSafe, NoDoubleRelease and Termination over every interleaving for a family of "
+         "depth-2 filters (deliberately asymmetric in x/y) x apexes, 2-3 workers. TLC-simulated behaviours are replayed step by step into the real "
+         "_walk_parallel/_mp_walk_worker on a fake multiprocessing with the projected state compared after each step; the real walk (serial and parallel) is "
+         "explored under seeded random/adversarial schedules against operation sets computed by TLC, and with real processes using ticketed callbacks.",
+    note="Exhaustive only in the spec (depth 2, <=3 workers; one depth-3 config in thorough); the real code is sampled over schedules. multiprocessing "
+         "primitives trusted to behave like lib/simmp.py's fakes. Serial-walk conformance to the same Live/Ops definitions is C13's Reduce.tla.",
+    technique="TLA+/TLC exhaustive model checking + liveness; replay of TLC behaviours into the real code under a deterministic scheduler; schedule exploration",
+    design_ref="DESIGN.md 4.2, 3 (M1, M2), 5/C01")
+
+reg("C19",
+    text="Fault variants of spec/WorkQueue.tla and spec/WalkPar.tla: an item in `faults` makes the callback raise (worker dies with non-zero exit status), "
+         "the parent inspects exit statuses whenever it would otherwise wait. TLC checks NeverSwallowed, RaisedOnlyOnFault and termination for every fault "
+         "set x every interleaving, including every worker dead while the bounded queue is full. TLC behaviours with faults are replayed into the real "
+         "stages; every (entry point, faulty item, worker count, schedule policy) combination is run on the real code under the deterministic scheduler "
+         "(outcome must be `raised`, never `returned`, never a hang by the fixpoint rule), plus real-process runs.",
+    note="Hang detection on the real code: no enabled step other than timeouts/polls/flag reads for 30 fair rounds with no change of queue/flag/process state. "
+         "A failing callback is assumed to terminate its worker with a non-zero exit status. Real-process runs use a 90 s wall-clock backstop only.",
+    technique="TLA+/TLC model checking of the error protocol + fault injection at every item under a deterministic scheduler + replay of TLC fault behaviours",
+    design_ref="DESIGN.md 4.2, 4.3, 5/C19")
+
+reg("C18",
+    text="TLC model-checks spec/Publish.tla - publish() as written (both directory listings chosen anew in every run, the swap that moves index.wtml last, "
+         "per-file BeginPut/EndPut, rename, crash or failed transfer before/during/after every transfer, re-runs) over two store models - and proves IndexLast, "
+         "RenameAfterAll, the quiescent invariants IndexImpliesAll / PublishedImpliesAll / RefreshSafe and the liveness 're-run completes' for the atomic store "
+         "(and for the in-place store with one fault), and refutes IndexImpliesAll for the in-place store with two faults. Every transition of the graph is dumped "
+         "and every path is replayed run by run on the real PipelineManager.publish() with a real LocalPipelineIo: imposed os.listdir order, faults injected at "
+         "put_item entry, after k bytes of the source (really truncated item) or at exit; the real store and directories are compared with the spec state at every "
+         "hook, the property's sentences are evaluated on the real disk at every quiescent point, and the real `pipeline refresh` is run to see what it skips.",
+    note="Bounded: <= 4 files / 2 images at 2 faults, 3 files at 3 faults, 5 files or 3 images at 1 fault (thorough); quick: 3 files + 2 images at 2 faults, 4 files at 1. "
+         "Paths reaching the same spec state with byte-identical disk contents share their continuation (publish() assumed a function of directory contents, listing "
+         "order and fault). Crash = BaseException at put_item boundaries / inside the source stream; power-loss buffer loss, concurrent publishers and the Azure "
+         "backend are outside the model. TLC, the JSON bridge and the harness' byte comparison are trusted.",
+    technique="TLA+/TLC exhaustive model checking (safety + liveness) + complete replay of the TLC state graph into the real code with fault injection",
+    design_ref="DESIGN.md 4.9, 5/C18, 9 (C18 row)", category="model_checking")
+
+reg("C20",
+    text="TLC enumerates every collection of 1-3 multi-extension FITS layouts (empty primary, image HDUs of distinct shapes, binary table, alternate WCS keys) x "
+         "hdu_index none/scalar/per-file list x wcs_key none/scalar/per-file list, checks the property's sentences (scalar applies to every file, list is positional "
+         "and local, none = first image HDU via the code's for/break loop, descriptions and images yield the same HDU/WCS in input order under every interleaving, "
+         "command-line spelling selects the same thing) and emits the FITS contents to write and the expected (hdu, shape, value, key, CRVAL, CRPIX) per input path; "
+         "the real load / SimpleFitsCollection / `toasty view` argv parsing / tile_fits are run on every case and descriptions(), images(), export_simple() compared, "
+         "plus real tile_fits and tile-multi-tan runs whose tile pixels are counted.",
+    note="Bounds: quick 5 layouts x 1-3 files (7849 cases model-checked, 1483 replayed); thorough exhaustive over 59275 cases incl. all 208 layouts of <=3 HDUs (1 file) "
+         "and all 32 layouts of <=2 HDUs (2 files). In scope = selected HDU exists, is a 2-D image and carries the key, list length = number of files. view/tile_fits "
+         "observed at the hand-over to FitsTiler (recorder) with real end-to-end tiling on a subset. Trusted: astropy FITS/WCS reading, the harness's file writer.",
+    technique="TLA+ spec (operator library + two-generator state machine) model-checked by TLC; TLC-produced cases and expectations replayed into the real code",
+    design_ref="DESIGN.md 4.10 Collection.tla, 5/C20, 9 (C20 row)")
+
+reg("C08",
+    text="TLC checks spec/StudyTiling.tla, an integer model of StudyTiling parameterised by the tile size: SpecImage enumerates every image up to a bound and every "
+         "sub-image of it for small tile sizes and checks in each state that the padded square is the minimal power of two, the image is centred with offsets rounded "
+         "down, the per-tile rectangles are disjoint, inside their tiles, cover the image and number the reported count, a sub-image's slots are the parent's, and that "
+         "writing the tiles as tile_image does (incl. the reversed-row slice with its -1->None case) and reading them back in display orientation reproduces the image "
+         "with everything else undefined, for top-down and bottom-up formats; SpecAxis checks the per-axis sentences pixel by pixel at TS=256 for every length to the bound "
+         "and emits the segment tables. The real StudyTiling (rectangles, count, image_to_tile for every pixel, depth, offsets, compute_for_subimage) is compared with "
+         "TLC's tables for critical x all size pairs, sub-images at tile/image edges and sampled sizes to 65537, and real tilings (tile_image, Builder + WTML template, "
+         "tile-study CLI; RGB/RGBA/F32/F64/U8/I16 in png/npy/fits; sub-images inside a larger tiling) are read back from disk with independent readers.",
+    note="Bounds: 2-D exhaustive for TS=4 w,h<=9 and TS=2 <=7 (thorough: TS=4 13x13, 20x6, 6x20; TS=2 9x9; TS=8 11x11) with all sub-images; per axis TS=256 all lengths "
+         "<=1100 (thorough 4200). 2-D at TS=256 rests on Rects = AxisSegs x AxisSegs (checked at small TS and by IntervalPartitionOK on the emitted cases). Integer modes: "
+         "'undefined' read as 0. TLC, the JSON bridge, PIL/numpy/astropy readers trusted.",
+    technique="TLA+/TLC exhaustive model checking (2-D small tile size, 1-D at 256) + TLC-emitted expected tables replayed into the real code + end-to-end read-back",
+    design_ref="DESIGN.md 4.7, 5/C08")
+
+reg("C10",
+    text="TLC explores the soft-lock read-modify-write machine of PyramidIO.update_image (spec/TileLock.tla: TryAcquire/Read/Modify/WriteBegin/WriteEnd/Release per process, "
+         "lock file per key, tile file absent|partial|content over abstract pixels) over all interleavings of 3 processes x 2 updates (thorough: also 4x2 and 3x3), checking "
+         "Mutex, NoPartialRead, NoLostUpdate (final = fold of all contributions in lock-acquisition order), SerialPrefix, EveryContribution, LocksFreeAtEnd and Termination; "
+         "it also refutes the per-process and per-format-argument lock-key designs. The real code is bound in two layers: (1) 2-4 forked processes run real update_image calls "
+         "on shared npy/fits/png tiles; each body takes tickets and joins a rendezvous that can only succeed if two bodies are inside at once; final files must hold every "
+         "contribution and each ticket-ordered recording must be accepted by TLC against spec/TileLockTrace.tla (TLC interposes the unobservable steps); (2) with "
+         "SoftFileLock._acquire/_release, read_image and Image.save as deterministic sync points, TLC-simulated behaviours (including failed acquisitions) are stepped through "
+         "real update_image calls with state comparison after every step, and schedules of the real code are explored with every full trace validated by TLC.",
+    note="Bounds: exhaustive model 3x2 (thorough 4x2, 3x3), 4 abstract pixels, 2 tile positions; real runs up to 4 processes x 3 updates. Assumes atomic O_CREAT|O_EXCL and unlink, "
+         "no updater crashing while holding the lock. Layer 2 runs only while update_image goes through filelock.SoftFileLock (otherwise drift; real processes decide). "
+         "Real-process detection of a broken lock relies on a 0.25 s rendezvous window (affects sensitivity only). TLC, the JSON bridge and lib/simmp.Sched are trusted.",
+    technique="TLA+/TLC exhaustive model checking + liveness; TLC trace validation of real multi-process runs; deterministic replay of TLC behaviours into real update_image",
+    design_ref="DESIGN.md 4.8, 5/C10, 3 (M1-M3)")
